@@ -92,6 +92,18 @@ CHECKS = {
              "Whole-reactor convert/applyStateToOriginal not covered.",
         technique="TLA+ exact-rational remeshing/filter specs + TLC; every TLC state replayed on real assemblies; one real call per enumerated filter/resample case",
     ),
+    "C03": dict(
+        text="ThermalExpansion.tla models two components (solid / inert / fluid / void / custom) with symbolic dimensions and number densities as monomials "
+             "(integer exponent vectors over the materials' measured expansion / density factors, spec/common/Monomial.tla); setTemperature, setDimension "
+             "(hot/cold, retainLink, refusals) and setLink are actions; path independence, density ~ factor^-2, area ~ factor^2, mass per height conserved, read-back, "
+             "link equality and fluids/custom keeping dimensions are integer equalities TLC decides exactly. Behaviours are replayed on real components of every "
+             "2-D shape class x library material (thorough: all 18 shape-roles x 57 materials), monomials evaluated with factors measured from the material, "
+             "rtol 1e-9; recorded call histories are validated by TLC.",
+        design="3/C03 and 9",
+        note="Trusted: TLC, per-shape dimension tables stated from geometry, measured f(T)/rho(T) per material (the value of a correlation is an input). "
+             "19 library materials with identically zero expansion refuse hot reads off Tinput (documented armi behaviour, modelled as a refusal).",
+        technique="TLA+ monomial (exponent-vector) spec of thermal expansion + TLC; behaviours replayed on real shape x material components; TLC trace validation",
+    ),
 }
 
 NOT_YET = "no specification-bound check has been built for this property yet in this session (planned, see DESIGN.md section 3)"
